@@ -41,10 +41,12 @@ Inductive pexp :=
 | EInt (n : N) | ELen (e : pexp)
 | ECmp (op : cmpop) (a b : pexp)           (* < <= > >= on integers *)
 | EStartsWith (s p : pexp) | EEndsWith (s p : pexp)
+| EFilter (f : nat) (l : pexp)             (* [x for x in l if f(x)] for a one-argument function f of the table (or an oracle) *)
 | ESubscr (d k : pexp)                     (* d[k] for a local dict d *)
 | ESetUpd (l add : pexp) (remove : pexps)  (* sorted(set(l).union({add}).difference({remove...})) *)
 | EKeysInterValues (d : pexp)              (* set(d).intersection(d.values()) *)
 | ENewConv (records : pexp)                (* Converter(records) *)
+| EProduct (a b : pexp)                    (* itertools.product(a, b) of two lists / sets given as lists: pairs, a-major *)
 | EChain (l : pexps)                       (* itertools.chain(l1, l2, ...) of lists, consumed by a for loop: their concatenation *)
 | EStar (e : pexp)                         (* *e, inside an argument list only *)
 with pexps := XNil | XCons (e : pexp) (r : pexps).
@@ -58,6 +60,7 @@ Inductive pstmt :=
 | SReraise
 | STry (body : pblock) (catch : list err) (handler : pblock) (orelse : pblock)
 | SFor (x : nat) (it : pexp) (body : pblock)
+| SForUnpack (xs : list nat) (it : pexp) (body : pblock)   (* for a, b in it: every element is a tuple of that many values *)
 | SAppend (x : nat) (e : pexp)
 | SSetItem (x : nat) (key : pexp) (e : pexp)  (* x[key] = e for a dict x and a string key *)
 | SRecAppend (x : nat) (a : attr) (e : pexp)  (* x.<synonym list>.append(e) for a Record held in the local x *)
@@ -161,6 +164,17 @@ Fixpoint contains (a : pv) (l : list pv) : option bool :=
               | Some true => Some true
               | Some false => contains a r
               | None => None end
+  end.
+
+(* [v for v in vs if test(v)] *)
+Fixpoint filter_by (test : pv -> eres) (vs : list pv) : eres :=
+  match vs with
+  | [] => EV (PList [])
+  | v :: r => match test v with
+              | EV t => match filter_by test r with
+                        | EV (PList kept) => EV (PList (if truthy t then v :: kept else kept))
+                        | o => o end
+              | o => o end
   end.
 
 Section Eval.
@@ -299,6 +313,12 @@ Fixpoint eval (e : pexp) : eres :=
                  | EV vp => match vs, vp with PStr x, PStr y => EV (PBool (suffixb y x)) | _, _ => ES end
                  | r => r end
       | r => r end
+  | EFilter f l =>
+      match eval l with
+      | EV (PList vs) | EV (PTup vs) =>
+          filter_by (fun v => call f [v]) vs
+      | EV _ => ES
+      | r => r end
   | ESubscr d k =>
       match eval d with
       | EV (PDict dd) => match eval k with
@@ -328,6 +348,15 @@ Fixpoint eval (e : pexp) : eres :=
   | ENewConv e =>
       match eval e with
       | EV (PList l) => match as_recs_pv l with Some rs => EV (PNewConv rs) | None => ES end
+      | EV _ => ES
+      | r => r end
+  | EProduct a b =>
+      match eval a with
+      | EV (PList la) | EV (PTup la) =>
+          match eval b with
+          | EV (PList lb) | EV (PTup lb) => EV (PList (flat_map (fun x => map (fun y => PTup [x; y]) lb) la))
+          | EV _ => ES
+          | r => r end
       | EV _ => ES
       | r => r end
   | EChain l =>
@@ -420,6 +449,17 @@ Fixpoint exec (cur : option err) (s : pstmt) (env : list pv) {struct s} : out :=
       match eval c call env it with
       | EV (PList l) | EV (PTup l) =>
           for_loop (fun v env => exec_block cur body (upd x v env)) l env
+      | EV _ => ORaise ETypeError
+      | EX x' => ORaise x'
+      | ES => OStuck end
+  | SForUnpack xs it body =>
+      match eval c call env it with
+      | EV (PList l) | EV (PTup l) =>
+          for_loop (fun v env => match v with
+                                 | PTup vs | PList vs => match assign_all xs vs env with
+                                                         | Some env' => exec_block cur body env'
+                                                         | None => ORaise EValueError end
+                                 | _ => ORaise ETypeError end) l env
       | EV _ => ORaise ETypeError
       | EX x' => ORaise x'
       | ES => OStuck end
@@ -542,7 +582,7 @@ Fixpoint execm (s : pstmt) (env : list pv) (c : conv) {struct s} : outm :=
       | EX x' => MRaise x'
       | ES => MStuck end
   | SPass => MNorm env c
-  | SUnpack _ _ | SReraise | STry _ _ _ _ | SAppend _ _ | SSetItem _ _ _ | SRecAppend _ _ _ | SRecSort _ _ | SRecSet _ _ _ => MStuck
+  | SUnpack _ _ | SReraise | STry _ _ _ _ | SAppend _ _ | SSetItem _ _ _ | SRecAppend _ _ _ | SRecSort _ _ | SRecSet _ _ _ | SForUnpack _ _ _ => MStuck
   end
 with execm_block (b : pblock) (env : list pv) (c : conv) {struct b} : outm :=
   match b with
@@ -575,11 +615,16 @@ Definition inj_ref := inj pref.
 Definition inj_strs := inj pstrs.
 Definition inj_bool (b : bool) : eres := EV (PBool b).
 
+(* functions that are not in the table: what the SPARQL graph of the mapping service holds besides its converter *)
+Definition f_oracle_query_predicates : nat := 1000.     (* self.query_predicates, as a list *)
+Definition f_oracle_is_valid_uri : nat := 1001.         (* rdflib's _is_valid_uri *)
+
 (* the table entry of a function the translator could not translate: stuck on every call *)
 Definition untranslated : fn := {| fn_nparams := 0; fn_nlocals := 0; fn_body := BCons SReraise BNil |}.
 Arguments run : simpl never.
 Arguments for_loop : simpl never.
 Arguments for_loopm : simpl never.
+Arguments filter_by : simpl never.
 (* a state-changing function of the table, run on a converter *)
 Definition runm (fuel : nat) (tbl : list fn) (c : conv) (f : nat) (args : list pv) : option conv :=
   match nth_error tbl f with Some fd => runm_fn (fun c' => run fuel tbl c') fd args c | None => None end.
